@@ -4,6 +4,8 @@ package schema
 // way parseSuperset would from JSON (the JSON decoder is outside the claim).
 
 import (
+	"errors"
+	"io"
 	"time"
 
 	"go4.org/types"
@@ -44,3 +46,29 @@ func VerifNewBlob(br blob.Ref, d VerifBlobDesc) *Blob {
 }
 
 func VerifSetClock(f func() time.Time) { clockNow = f }
+
+// VerifSchemaByBody maps the (concrete) body of a schema blob to the description a harness
+// registered for it; VerifParseSuperset is the model of parseSuperset over that table
+// (the JSON decoder is outside the claim).
+var VerifSchemaByBody = map[string]*Blob{}
+
+func VerifParseSuperset(r io.Reader) (*superset, error) {
+	var buf [16]byte
+	n, _ := io.ReadFull(r, buf[:])
+	b, ok := VerifSchemaByBody[string(buf[:n])]
+	if !ok {
+		return nil, errors.New("verif: not a schema blob")
+	}
+	ss := *b.ss
+	return &ss, nil
+}
+
+// VerifBlobFromReader is the matching model of BlobFromReader.
+func VerifBlobFromReader(br blob.Ref, r io.Reader) (*Blob, error) {
+	ss, err := VerifParseSuperset(r)
+	if err != nil {
+		return nil, err
+	}
+	ss.BlobRef = br
+	return &Blob{br: br, str: "{}", ss: ss}, nil
+}
